@@ -183,7 +183,7 @@ pub fn run(ctx: &Ctx) -> i32 {
     }
     let env = Arc::new(Env::new(&ctx.repo, "c11"));
     let cfg = configs();
-    let seeds: u64 = if ctx.thorough() { 2000 } else { 256 };
+    let seeds: u64 = if ctx.thorough() { 20_000 } else { 256 };
     let clocks: [i64; 4] = [SD as i64, SD as i64 + 1, SD as i64 + 1_000_000, u32::MAX as i64];
     // warm the source-file cache outside any scenario
     for (_, s) in &cfg {
